@@ -335,10 +335,11 @@ class DIP:
             if isinstance(node,(IntegerNode, FloatNode, StringNode)):
                 node.validate_options()
             # Check conditions
-            if node.keyword in ['float','int'] and node.condition:
+            if node.condition:
                 target.autoref = node.name
                 with LogicalSolver(target) as s:
-                    if not s.solve(node.condition).value:
+                    result = s.solve(node.condition)
+                    if not (result.value if isinstance(result, Type) else result):
                         raise Exception("Node does not fullfil a condition:",
                                         node.name, node.condition)
                 target.autoref = None
